@@ -14,6 +14,7 @@
 import HitenModel.Lemmas.C08NF
 import HitenModel.Lemmas.LieSeriesModel
 import HitenModel.Lemmas.LieSeriesIter
+import HitenModel.Lemmas.LieSeriesCanon
 import HitenModel.Gen.C08
 import Mathlib.Analysis.Complex.Norm
 
@@ -472,7 +473,8 @@ open HitenModel.LieSeries in
 cleaning, every `N` and every input `H`, each coefficient of degree `≤ N` of the Hamiltonian returned by `_lie_transform` is the
 coefficient of `H ∘ Ψ`, where `Ψ_i` is the `i`-th polynomial `_lie_expansion` (forward, `sign = +1`, unrestricted) computes from the
 generator `poly_G_total` RETURNED by `_lie_transform`: "the transformed Hamiltonian equals the old Hamiltonian composed with the
-generated canonical transformation".  (Not covered here: canonicity of `Ψ`, `inverse ∘ forward = id`, float rounding, `restrict=True`.) -/
+generated canonical transformation".  (Canonicity of `Ψ`: `normal_form_transformation_is_canonical`; `inverse ∘ forward = id`:
+`normal_form_expansions_mutually_inverse`, both below.  Not covered: float rounding, `restrict=True`.) -/
 theorem normal_form_is_composition_with_expansion (c : Cfg K) (htiny : ∀ x, c.tiny x = true → x = 0) (H : Poly K)
     (m : Mono) (hm : m.deg ≤ c.N) :
     coeff (lieTransform c H).trans m =
@@ -497,6 +499,161 @@ example :
     simp only [gs, List.mem_cons, List.not_mem_nil, or_false] at hkg
     rcases hkg with rfl | rfl <;>
       (simp only [List.mem_cons, List.not_mem_nil, or_false] at hv; rcases hv with rfl | rfl <;> decide)
+
+/-! #### inverse expansion and canonicity (`Lemmas/LieSeriesCanon.lean`)
+
+Second half of the property sentence: "… composed with the generated **canonical** transformation, and the forward and inverse coordinate
+expansions are mutually inverse up to the truncation order". -/
+
+open HitenModel.LieSeries in
+/-- **lie_series_one_parameter_group**: for a generator without terms of degree `< 3`, `exp(a·ad_G) exp(b·ad_G) f` and `exp((a+b)·ad_G) f`
+(all series truncated after `N` brackets) agree in every coefficient of degree `≤ N` (binomial theorem + order filtration). -/
+theorem lie_series_one_parameter_group (N : Nat) (a b : K) (G f : MvPolynomial (Fin 6) K) (hG : Ord 3 G)
+    (s : Fin 6 →₀ ℕ) (hs : s.degree ≤ N) :
+    MvPolynomial.coeff s (lieSum N (a • G) (lieSum N (b • G) f)) = MvPolynomial.coeff s (lieSum N ((a + b) • G) f) :=
+  (lieSum_smul_add_cong N a b hG f).coeff_eq s hs
+
+open HitenModel.LieSeries in
+/-- **lie_series_inverse** (one generator): the truncated Lie series of `-G` undoes the truncated Lie series of `G`, and vice versa, in
+every coefficient of degree `≤ N`. -/
+theorem lie_series_inverse (N : Nat) (G f : MvPolynomial (Fin 6) K) (hG : Ord 3 G) (s : Fin 6 →₀ ℕ) (hs : s.degree ≤ N) :
+    MvPolynomial.coeff s (lieSum N (-G) (lieSum N G f)) = MvPolynomial.coeff s f ∧
+    MvPolynomial.coeff s (lieSum N G (lieSum N (-G) f)) = MvPolynomial.coeff s f :=
+  ⟨(lieSum_neg_lieSum N hG f).coeff_eq s hs, (lieSum_lieSum_neg N hG f).coeff_eq s hs⟩
+
+open HitenModel.LieSeries in
+/-- **composed_maps_mutually_inverse** (any list of generator degrees, any family of generators without terms of degree `< 3`): with
+`Ψ = psiFn N Gf order` (point map `Φ_{n1} ∘ … ∘ Φ_{nk}`, `Φ_n = exp(ad_{Gf n})`) and `Ψ' = psiFn N (-Gf) order.reverse`
+(`Φ⁻_{nk} ∘ … ∘ Φ⁻_{n1}`): `(Ψ' i) ∘ Ψ` and `(Ψ i) ∘ Ψ'` have the coefficients of `x_i` in every degree `≤ N`. -/
+theorem composed_maps_mutually_inverse (N : Nat) (Gf : Nat → MvPolynomial (Fin 6) K) (order : List Nat)
+    (hG : ∀ n ∈ order, Ord 3 (Gf n)) (i : Fin 6) (s : Fin 6 →₀ ℕ) (hs : s.degree ≤ N) :
+    MvPolynomial.coeff s (MvPolynomial.aeval (psiFn N Gf order) (psiFn N (fun n => -Gf n) order.reverse i)) =
+      MvPolynomial.coeff s (X i : MvPolynomial (Fin 6) K) ∧
+    MvPolynomial.coeff s (MvPolynomial.aeval (psiFn N (fun n => -Gf n) order.reverse) (psiFn N Gf order i)) =
+      MvPolynomial.coeff s (X i : MvPolynomial (Fin 6) K) :=
+  ⟨(psiFn_inverse_left N Gf order hG i).coeff_eq s hs, (psiFn_inverse_right N Gf order hG i).coeff_eq s hs⟩
+
+open HitenModel.LieSeries in
+/-- **lie_expansions_mutually_inverse** — on the model of `_lie_expansion` (unrestricted), for ANY `poly_G_total`, any `N`, exact cleaning as
+the only hypothesis: let `F_j` be the six polynomials of the forward expansion (`inverse=False, sign=+1`) and `I_j` those of the inverse
+expansion (`inverse=True, sign=-1`).  Then `I_i ∘ F` (point map: inverse after forward) and `F_i ∘ I` (forward after inverse) have, in
+every monomial of degree `≤ N`, the coefficient of the coordinate polynomial `x_i`. -/
+theorem lie_expansions_mutually_inverse {tiny : K → Bool} (htiny : ∀ c, tiny c = true → c = 0) (N : Nat) (Gtot : Poly K) (i : Fin 6)
+    (m : Mono) (hm : m.deg ≤ N) :
+    MvPolynomial.coeff m.toFinsupp
+        (MvPolynomial.aeval (fun j : Fin 6 => toMv ((lieExpansion tiny N Gtot false 1 false).getD j.val []))
+          (toMv ((lieExpansion tiny N Gtot true (-1) false).getD i.val []))) = coeff (coordPoly i) m ∧
+    MvPolynomial.coeff m.toFinsupp
+        (MvPolynomial.aeval (fun j : Fin 6 => toMv ((lieExpansion tiny N Gtot true (-1) false).getD j.val []))
+          (toMv ((lieExpansion tiny N Gtot false 1 false).getD i.val []))) = coeff (coordPoly i) m := by
+  have hd : m.toFinsupp.degree ≤ N := by rw [toFinsupp_degree]; exact hm
+  rw [← coeff_toMv (coordPoly i) m, toMv_coordPoly]
+  exact ⟨(lieExpansion_inverse_of_forward htiny N Gtot i).coeff_eq _ hd, (lieExpansion_forward_of_inverse htiny N Gtot i).coeff_eq _ hd⟩
+
+open HitenModel.LieSeries in
+/-- **normal_form_expansions_mutually_inverse** — the headline for the generator RETURNED by `_lie_transform`: the forward and the inverse
+coordinate expansion of `poly_G_total = (lieTransform c H).G` are mutually inverse up to the truncation order `N`, coefficientwise, for
+every configuration with exact cleaning and every input Hamiltonian. -/
+theorem normal_form_expansions_mutually_inverse (c : Cfg K) (htiny : ∀ x, c.tiny x = true → x = 0) (H : Poly K) (i : Fin 6)
+    (m : Mono) (hm : m.deg ≤ c.N) :
+    MvPolynomial.coeff m.toFinsupp
+        (MvPolynomial.aeval (fun j : Fin 6 => toMv ((lieExpansion c.tiny c.N (lieTransform c H).G false 1 false).getD j.val []))
+          (toMv ((lieExpansion c.tiny c.N (lieTransform c H).G true (-1) false).getD i.val []))) = coeff (coordPoly i) m ∧
+    MvPolynomial.coeff m.toFinsupp
+        (MvPolynomial.aeval (fun j : Fin 6 => toMv ((lieExpansion c.tiny c.N (lieTransform c H).G true (-1) false).getD j.val []))
+          (toMv ((lieExpansion c.tiny c.N (lieTransform c H).G false 1 false).getD i.val []))) = coeff (coordPoly i) m :=
+  lie_expansions_mutually_inverse htiny c.N (lieTransform c H).G i m hm
+
+open HitenModel.LieSeries in
+/-- **poisson_jacobi**: Jacobi identity for the canonical Poisson bracket; equivalently `ad_G = {·, G}` is a derivation of the bracket -/
+theorem poisson_jacobi (f g h : MvPolynomial (Fin 6) K) :
+    PB (PB f g) h + PB (PB g h) f + PB (PB h f) g = 0 ∧ PB (PB f g) h = PB (PB f h) g + PB f (PB g h) :=
+  ⟨PB_jacobi f g h, PB_PB f g h⟩
+
+open HitenModel.LieSeries in
+/-- **lie_series_preserves_bracket**: for a generator without terms of degree `< 3`, `f` without terms of degree `< kf`, `g` without terms
+of degree `< kg`: `exp(ad_G){f,g}` and `{exp(ad_G) f, exp(ad_G) g}` (truncated after `N` brackets) agree in every coefficient of degree
+`≤ M`, provided `M + 2 ≤ N + kf + kg`. -/
+theorem lie_series_preserves_bracket (N M kf kg : Nat) (G f g : MvPolynomial (Fin 6) K) (hG : Ord 3 G) (hf : Ord kf f) (hg : Ord kg g)
+    (hM : M + 2 ≤ N + kf + kg) (s : Fin 6 →₀ ℕ) (hs : s.degree ≤ M) :
+    MvPolynomial.coeff s (lieSum N G (PB f g)) = MvPolynomial.coeff s (PB (lieSum N G f) (lieSum N G g)) :=
+  (lieSum_PB_cong N M kf kg hG hf hg hM).coeff_eq s hs
+
+open HitenModel.LieSeries in
+/-- **lie_series_map_is_symplectic** (one generator): the truncated coordinate map `Φ_i = Σ_{n ≤ N} ad_G^n x_i / n!` satisfies
+`{Φ_i, Φ_j} = J_ij` in every coefficient of degree `≤ N` (`J` the standard symplectic matrix, `Jmat`). -/
+theorem lie_series_map_is_symplectic (N : Nat) (G : MvPolynomial (Fin 6) K) (hG : Ord 3 G) (i j : Fin 6)
+    (s : Fin 6 →₀ ℕ) (hs : s.degree ≤ N) :
+    MvPolynomial.coeff s (PB (lieSum N G (X i)) (lieSum N G (X j))) = MvPolynomial.coeff s (C (Jmat i j) : MvPolynomial (Fin 6) K) := by
+  rw [← PB_X_X]
+  exact (lieSum_symplectic N hG i j).coeff_eq s hs
+
+open HitenModel.LieSeries in
+/-- **lie_expansion_is_canonical** — on the model of `_lie_expansion` (unrestricted; forward or inverse; any sign; ANY `poly_G_total`; exact
+cleaning as only hypothesis): the Poisson brackets (the code's `_polynomial_poisson_bracket`, `poisson`) of the six returned polynomials
+`P_i` are the brackets of the coordinates, `{P_i, P_j} = {x_i, x_j} = J_ij`, in every coefficient of degree `≤ N - 1` — the returned map is
+a canonical (symplectic) transformation up to the truncation order.  (`P_i` is only known up to degree `N` and the bracket lowers the
+degree by one here, hence `N - 1`.) -/
+theorem lie_expansion_is_canonical {tiny : K → Bool} (htiny : ∀ c, tiny c = true → c = 0) (N : Nat) (Gtot : Poly K)
+    (inverse : Bool) (sign : K) (i j : Fin 6) (m : Mono) (hm : m.deg + 1 ≤ N) :
+    coeff (poisson ((lieExpansion tiny N Gtot inverse sign false).getD i.val [])
+        ((lieExpansion tiny N Gtot inverse sign false).getD j.val [])) m =
+      coeff (poisson (coordPoly i) (coordPoly j)) m := by
+  rw [← coeff_toMv, ← coeff_toMv, toMv_poisson, toMv_poisson, toMv_coordPoly, toMv_coordPoly]
+  exact (lieExpansion_symplectic htiny N m.deg hm Gtot inverse sign i j).coeff_eq _ (by rw [toFinsupp_degree])
+
+open HitenModel.LieSeries in
+/-- the value of the coordinate brackets: `{x_i, x_j} = J_ij` (constant polynomial; `J_ij = 1` for `(q_k, p_k)`, `-1` for `(p_k, q_k)`) -/
+theorem coord_brackets (i j : Fin 6) (m : Mono) :
+    coeff (poisson (coordPoly (K := K) i) (coordPoly j)) m = if m.deg = 0 then Jmat i j else 0 := by
+  rw [← coeff_toMv, toMv_poisson, toMv_coordPoly, toMv_coordPoly, PB_X_X, MvPolynomial.coeff_C, ← toFinsupp_degree]
+  by_cases h : m.toFinsupp = 0
+  · rw [if_pos h.symm, if_pos ((Finsupp.degree_eq_zero_iff _).mpr h)]
+  · rw [if_neg (fun h' => h h'.symm), if_neg (fun h' => h ((Finsupp.degree_eq_zero_iff _).mp h'))]
+
+open HitenModel.LieSeries in
+/-- **normal_form_transformation_is_canonical** — for the generator RETURNED by `_lie_transform`: the forward expansion (the map `Ψ` with
+`H_new ≡ H_old ∘ Ψ`, `normal_form_is_composition_with_expansion`) and the inverse expansion are both canonical up to the truncation order. -/
+theorem normal_form_transformation_is_canonical (c : Cfg K) (htiny : ∀ x, c.tiny x = true → x = 0) (H : Poly K) (i j : Fin 6)
+    (m : Mono) (hm : m.deg + 1 ≤ c.N) :
+    coeff (poisson ((lieExpansion c.tiny c.N (lieTransform c H).G false 1 false).getD i.val [])
+        ((lieExpansion c.tiny c.N (lieTransform c H).G false 1 false).getD j.val [])) m =
+      coeff (poisson (coordPoly i) (coordPoly j)) m ∧
+    coeff (poisson ((lieExpansion c.tiny c.N (lieTransform c H).G true (-1) false).getD i.val [])
+        ((lieExpansion c.tiny c.N (lieTransform c H).G true (-1) false).getD j.val [])) m =
+      coeff (poisson (coordPoly i) (coordPoly j)) m :=
+  ⟨lie_expansion_is_canonical htiny c.N _ false 1 i j m hm, lie_expansion_is_canonical htiny c.N _ true (-1) i j m hm⟩
+
+open HitenModel.LieSeries in
+/-- **lie_expansion_preserves_all_brackets** — the canonical-transformation property in its strong form, on the model of `_lie_expansion`
+(unrestricted; forward or inverse; any sign; any `poly_G_total`; exact cleaning): for ALL polynomials `A`, `B`, substituting the six returned
+polynomials `P` commutes with the Poisson bracket, `{A ∘ P, B ∘ P} = {A, B} ∘ P`, in every coefficient of degree `≤ N - 1` (chain rule +
+`lie_expansion_is_canonical`). -/
+theorem lie_expansion_preserves_all_brackets {tiny : K → Bool} (htiny : ∀ c, tiny c = true → c = 0) (N : Nat) (Gtot : Poly K)
+    (inverse : Bool) (sign : K) (A B : Poly K) (m : Mono) (hm : m.deg + 1 ≤ N) :
+    MvPolynomial.coeff m.toFinsupp
+        (PB (MvPolynomial.aeval (fun i : Fin 6 => toMv ((lieExpansion tiny N Gtot inverse sign false).getD i.val [])) (toMv A))
+          (MvPolynomial.aeval (fun i : Fin 6 => toMv ((lieExpansion tiny N Gtot inverse sign false).getD i.val [])) (toMv B))) =
+      MvPolynomial.coeff m.toFinsupp
+        (MvPolynomial.aeval (fun i : Fin 6 => toMv ((lieExpansion tiny N Gtot inverse sign false).getD i.val []))
+          (toMv (poisson A B))) := by
+  rw [toMv_poisson]
+  exact (lieExpansion_preserves_brackets htiny N m.deg hm Gtot inverse sign (toMv A) (toMv B)).coeff_eq _ (by rw [toFinsupp_degree])
+
+open HitenModel.LieSeries in
+/-- non-vacuity: an explicit cubic generator over ℚ has order `≥ 3` (hypothesis `Ord 3 G` of the one-generator theorems), exact cleaning is
+`tiny c ⇔ c = 0`, and `m.deg + 1 ≤ N` holds e.g. for the constant monomial and `N = 4` -/
+example :
+    Ord 3 (toMv ([(⟨2, 0, 0, 1, 0, 0⟩, (1 : ℚ)), (⟨0, 1, 1, 0, 1, 0⟩, 3)] : Poly ℚ)) ∧
+    (∀ c : ℚ, decide (c = 0) = true → c = 0) ∧ (⟨0, 0, 0, 0, 0, 0⟩ : Mono).deg + 1 ≤ 4 := by
+  refine ⟨ord_toMv 3 _ fun v hv => ?_, fun c hc => by simpa using hc, by decide⟩
+  simp only [List.mem_cons, List.not_mem_nil, or_false] at hv
+  rcases hv with rfl | rfl <;> decide
+
+open HitenModel.LieSeries in
+/-- non-vacuity of the conclusion: the coordinate brackets are not all zero, `{q1, p1} = 1`, `{p1, q1} = -1`, `{q1, q2} = 0` -/
+example : (Jmat 0 3 : ℚ) = 1 ∧ (Jmat 3 0 : ℚ) = -1 ∧ (Jmat 0 1 : ℚ) = 0 := by
+  refine ⟨?_, ?_, ?_⟩ <;> simp [Jmat]
 
 end LieSeriesProps
 
